@@ -70,6 +70,8 @@ def _num(v):
         return z3.RealVal(str(fr.numerator)) / z3.RealVal(str(fr.denominator)), True
     if isinstance(v, Fraction):
         return z3.RealVal(str(v.numerator)) / z3.RealVal(str(v.denominator)), True
+    if isinstance(v, z3.ArithRef):
+        return v, v.is_real()
     try:
         import numpy as np
         if isinstance(v, np.integer):
@@ -84,7 +86,7 @@ def _num(v):
 
 
 def _is_numlike(v):
-    if isinstance(v, (SymInt, SymReal, SymBool, bool, int, float, Fraction)):
+    if isinstance(v, (SymInt, SymReal, SymBool, bool, int, float, Fraction, z3.ArithRef)):
         return True
     try:
         import numpy as np
@@ -318,19 +320,34 @@ def mkbool(z):
     return SymBool(z)
 
 
+def _allconc(xs):
+    for x in xs:
+        if not isinstance(x, bool):
+            return False
+    return True
+
+
 def sand(*xs):
+    if _allconc(xs):
+        return all(xs)
     return mkbool(z3.And(*[zb(x) for x in xs]))
 
 
 def sor(*xs):
+    if _allconc(xs):
+        return any(xs)
     return mkbool(z3.Or(*[zb(x) for x in xs]))
 
 
 def snot(x):
+    if isinstance(x, bool):
+        return not x
     return mkbool(z3.Not(zb(x)))
 
 
 def implies(a, b):
+    if isinstance(a, bool) and isinstance(b, bool):
+        return (not a) or b
     return mkbool(z3.Implies(zb(a), zb(b)))
 
 
